@@ -20,16 +20,17 @@ NOT_COVERED = ['that encoder and decoder payload symbol sequences mirror each ot
                'the "frozen RFC 6716 reference decoder" clause: no such decoder or test vectors exist in the sandbox; this '
                "tree's decoder is the only decoder used (co-drift of encoder and decoder is visible only through the layers that "
                'have a Lean model: framing C06, range coder C08)',
-               'redundancy_mirror (design priority P1): decoder-side recovery of (redundancy, celt_to_silk, redundancy_bytes) '
-               'from the encoder skeleton signalling is not proved',
                'multistream / projection packet structure (self-delimited concatenation) is covered by the search and by C10, '
                'not by a theorem here']
 ASSUMPTIONS = _c05.ASSUMPTIONS
 TRUSTED = _c05.TRUSTED
 REQUIRED_THEOREMS = ['OpusProps.C02.' + t for t in ('genToc_roundtrip', 'lowBudget_valid', 'no_internal_error',
-                                                    'repack_output_parses', 'encode_wellformed')]
+                                                    'repack_output_parses', 'encode_wellformed', 'redundancy_mirror_partial')]
 UNPROVED = [
-            'redundancy_mirror (P1)',
+            'redundancy_mirror in full (P1): proved as redundancy_mirror_partial under C08 lock-step of symbols and ec_tell PLUS '
+            'the decoder-side gate/sanity inequalities on the actual frame length (CELT min_allowed contract in hybrid mode; in '
+            'SILK-only mode not implied for redundancy_bytes = 2 with a 0-bit flag and ec_tell = 0 mod 8); the full statement is '
+            'a comment block in OpusProps/C02.lean',
             'lowBudget_valid for the CBR-padded ToC-only packet is covered by encode_wellformed through the repacketiser '
             'contract; the statement proved by exhaustive kernel evaluation is about the unpadded packet']
 
